@@ -27,7 +27,7 @@ THEOREM_FILE = "Props/C19.v"
 CHECKER = "Corr.C19"
 SHARD = 60
 RULE = ("Runs: all run lengths N in 0..8 x output periods 1..3 x cold/warm start (thorough: N up to 14, periods 1..5, "
-        "two seeds), the way each of the four plug-ins is given (abs, abs+.py, relative, bare name with importable decoy, "
+        "four repetitions with other releases, kills and modes), the way each of the four plug-ins is given (abs, abs+.py, relative, bare name with importable decoy, "
         "importable) and which modules have a close rotate with the case index; releases at several steps, IBM kills at "
         "several steps. Loader cases: file exists x importable x suffix x relative/absolute, and pairs of same-named "
         "files in two directories loaded in one process. Non-trivial = distinct (start, N, period, modes, close set, "
@@ -245,7 +245,7 @@ def gen_cases(ctx):
     out = []
     nmax, pmax = (8, 3) if ctx.quick else (14, 5)
     k = 0
-    for rep in range(1 if ctx.quick else 2):
+    for rep in range(1 if ctx.quick else 4):
         for warm in (False, True):
             for N in range(0, nmax + 1):
                 for p in range(1, pmax + 1):
